@@ -93,6 +93,25 @@ Theorem write_reader_publishes : forall path b s0 s',
     (idir s0 !! sp_ent path = None -> md = perm_new umask).
 Proof. exact (write_reader_publishes_proof fresh_ent fresh_ino umask Hfe Hfi). Qed.
 
+(* incremental writing (AddAnnotationsFile / AddAnnotationsMapFile / RemoveAnnotationsFile with incr = true):
+   with a distinctly spelled output the run is the ordinary staged-output run (incr is ignored by the code): the
+   output is published and the distinctly named input is untouched … *)
+Theorem incr_distinct_input_unchanged : forall x o b s0 s' i f,
+  wlog s0 = [] -> sp_ent x <> sp_ent o ->
+  incr_api_i fresh_ent fresh_ino umask x (Some o) b s0 = ROk tt s' ->
+  idir s0 !! sp_ent x = Some (DFile i) -> inos s0 !! i = Some f ->
+  (idir s' !! sp_ent x = Some (DFile i) /\ inos s' !! i = Some f) /\
+  exists md inew, idir s' !! sp_ent o = Some (DFile inew) /\ inos s' !! inew = Some (File (output_of b) md).
+Proof. exact (incr_distinct_input_unchanged_proof fresh_ent fresh_ino umask Hfe Hfi). Qed.
+
+(* … and with outFile "" or the same string the increment is appended to the input's own inode *)
+Theorem incr_inplace_appends : forall x outF b s0 s',
+  (outF = None \/ outF = Some x) ->
+  incr_api_i fresh_ent fresh_ino umask x outF b s0 = ROk tt s' ->
+  exists i f, resolve (idir s0) (sp_ent x) = Some i /\ inos s0 !! i = Some f /\
+    idir s' = idir s0 /\ inos s' = <[i := File (fdata f ++ output_of b) (fmode f)]> (inos s0).
+Proof. exact (incr_inplace_appends_proof fresh_ent fresh_ino umask). Qed.
+
 (* several inputs (image mode of grid / n-up / booklet, import images): a refused alias changes nothing … *)
 Theorem multi_alias_refused : forall ins o b s,
   reject_alias ins o s = true ->
@@ -144,6 +163,8 @@ Print Assumptions alias_is_inplace.
 Print Assumptions alias_spelling_is_inplace.
 Print Assumptions copy_same_file_noop.
 Print Assumptions write_reader_publishes.
+Print Assumptions incr_distinct_input_unchanged.
+Print Assumptions incr_inplace_appends.
 Print Assumptions multi_alias_refused.
 Print Assumptions multi_inputs_unchanged.
 Print Assumptions reject_alias_spec.
